@@ -221,9 +221,11 @@ def gen_case(rng, cyc=None, nreq=None, plain=False):
     prior, mode = gen_prior(rng, g, mode="clean" if rng.random() < 0.6 else None)
     inexact = rng.random() < 0.2
     hist = []
-    for _ in range(nreq or rng.randint(1, 5)):
+    n = nreq or rng.randint(1, 5)
+    flip = rng.randint(1, n - 1) if (n > 1 and not plain and rng.random() < 0.12) else None   # mixed setup types (D34)
+    for k in range(n):
         r = gen_request(rng, g, plain=plain)
-        r["inexact"] = inexact
+        r["inexact"] = inexact if (flip is None or k < flip) else not inexact
         hist.append(r)
     return {"graph": g, "prior": prior, "prior_mode": mode, "history": hist}
 
@@ -799,7 +801,8 @@ def closure(G_, name, ver, exact):
                 continue
             vr2, vx2 = spec_model(a["spec"])
             sub = set(acc)
-            if visit(a["name"], vr2, vx2, a["just"], sub, tuple(a.get("tags", []))):
+            # a line's -t tags go in front of the VRO in force, and stay in force for everything set up below it
+            if visit(a["name"], vr2, vx2, a["just"], sub, tuple(a.get("tags", [])) + tuple(ltags)):
                 acc |= sub
             elif not a["opt"]:
                 return False
@@ -829,9 +832,23 @@ def changed_for(G_, m, e0, e1):
     return False
 
 
-def check_request(G_, req, r, stats=None):
+def guarded_value(G_, owner, s):
+    """Is the string contributed by a line of the owner's table that sits inside an if (type == exact) / else block?"""
+    n, v = owner
+    for gd, a in G_.flat.get((n, v), []):
+        if gd == "always":
+            continue
+        if a["a"] == "prepend" and s in [x for _, x in G_.values(n, v, a)]:
+            return True
+        if a["a"] == "set" and G_.value(n, v, a) == s:
+            return True
+    return False
+
+
+def check_request(G_, req, r, stats=None, mixed=False):
     """Oracle (ii) for one request of a history: yields (property, clause, finding class | None, detail).
-    r is the raw result of run_history (before / after / outcome / cmds …)."""
+    r is the raw result of run_history (before / after / outcome / cmds …); mixed = the history so far holds
+    requests of both setup types (--inexact and not)."""
     cyc = G_.cyclic_names()
     e0 = canon_env(G_, r["before"])
     exact = not req["inexact"]
@@ -857,14 +874,18 @@ def check_request(G_, req, r, stats=None):
     if req["op"] == "setup":
         name = req["name"]
         # --- C01 (a) (b) (c): on priors that are themselves consistent -----------------------------
-        if env_ok(G_, e0, exact):
+        if not residue(G_, e0) and not bad_dirs(G_, e0):
             cnt("c01_prior_ok")
             for var, s, o in residue(G_, e1):
-                yield ("C01", "c_no_residue", "D17" if o[0] in cyc else None, "%s holds %s of %s %s; records %r" % (var, s, o[0], o[1], e1["recs"]))
-            for n, v, what in missing_contribs(G_, e1, exact):
-                yield ("C01", "b_contributions_present", "D17" if n in cyc else None, "%s %s: %s" % (n, v, what))
+                cls = "D17" if o[0] in cyc else ("D34" if mixed and guarded_value(G_, o, s) else None)
+                yield ("C01", "c_no_residue", cls, "%s holds %s of %s %s; records %r" % (var, s, o[0], o[1], e1["recs"]))
             for n, v in bad_dirs(G_, e1):
                 yield ("C01", "a_dir_is_declared_dir", "D17" if n in cyc else None, "%s %s: dir %r" % (n, v, e1["dirs"].get(n)))
+            # (b) speaks of the contributions under the setup type the products were set up with: evaluated
+            # while the history has used one type only
+            if not mixed and not missing_contribs(G_, e0, exact):
+                for n, v, what in missing_contribs(G_, e1, exact):
+                    yield ("C01", "b_contributions_present", "D17" if n in cyc else None, "%s %s: %s" % (n, v, what))
         else:
             cnt("c01_prior_not_ok")
         # --- C01 clause 4: explicit version --------------------------------------------------------
@@ -989,7 +1010,10 @@ def evaluate(ctx, pid, cases, stats, workers=6, extra=None):
                 stats["ok"] = stats.get("ok", 0) + 1
             if im.get("deep"):
                 continue
-            for prop, clause, cls, detail in check_request(G_, req, r, stats):
+            mixed = len({h["inexact"] for h in case["history"][:i + 1]}) > 1
+            if mixed:
+                ctx.hist("mixed_setup_types")
+            for prop, clause, cls, detail in check_request(G_, req, r, stats, mixed=mixed):
                 if prop != pid:
                     continue
                 ctx.hist("clause_failed=" + clause)
@@ -1021,7 +1045,8 @@ def replay_case(ctx, pid, rp):
             continue
         if "before" not in r or impl[i].get("deep"):
             continue
-        for prop, clause, cls, detail in check_request(G_, req, r):
+        mixed = len({h["inexact"] for h in case["history"][:i + 1]}) > 1
+        for prop, clause, cls, detail in check_request(G_, req, r, mixed=mixed):
             if prop == pid:
                 fails.append({"step": i, "clause": clause, "class": cls, "detail": detail})
     return {"input": case, "impl_output": impl, "model_output": model,
